@@ -191,6 +191,19 @@ func Spec(big int) []Node {
 		{Rel: "frac/sub/g.txt", Kind: "file", Mode: 0o644, Data: text("g", 60)},
 		{Rel: "frac/l", Kind: "symlink", Target: "f75.txt"},
 	}
+	// a directory with dot files next to files of the same name without the dot
+	for _, n := range []Node{
+		{Rel: "dots", Kind: "dir", Mode: 0o755},
+		{Rel: "dots/.env", Kind: "file", Mode: 0o600, Data: text(".env", 20)},
+		{Rel: "dots/env", Kind: "file", Mode: 0o644, Data: text("env", 21)},
+		{Rel: "dots/.config", Kind: "dir", Mode: 0o700},
+		{Rel: "dots/.config/settings", Kind: "file", Mode: 0o644, Data: text("settings", 22)},
+		{Rel: "dots/sub", Kind: "dir", Mode: 0o755},
+		{Rel: "dots/sub/.keep", Kind: "file", Mode: 0o644, Data: []byte{}},
+		{Rel: "dots/..data", Kind: "file", Mode: 0o644, Data: text("dotdot", 23)},
+	} {
+		ns = append(ns, n)
+	}
 	// a changelog with an entry that has no date (and one without packager)
 	ns = append(ns, Node{Rel: "changelog-undated.yaml", Kind: "file", Mode: 0o644, Data: []byte(`- semver: "1.1.0"
   date: "2009-12-08T22:00:00Z"
